@@ -219,7 +219,7 @@ prop('C08', 'model_checking',
      'EndToEnd.tla composes the IdP build options with the SP acceptance table of C02 (precondition: the requirements are met), the '
      'release contract of C07 (the SP\'s generated metadata asks for what its configuration lists) and the transports of C14, and '
      'enumerates sign_response x sign_assertion x encrypt_assertion x algorithm pair x POST/Redirect/SOAP x requirement triple x '
-     'NameID format x session expiry x 12 value classes x unknown attribute x the SP\'s clock-skew allowance x authentication context (class, authenticating authority); IdP and SP are configured from each other\'s '
+     'NameID format x session expiry x 13 value classes x unknown attribute x the SP\'s clock-skew allowance x authentication context (class, authenticating authority); IdP and SP are configured from each other\'s '
      'generated metadata, the response is built by Server.create_authn_response, packed by apply_binding, read from the wire by '
      'independent parsers and parsed by the SP; subject, attributes (after name mapping and trimming), in-response-to, issuer, '
      'session expiry and the element structure must equal what was asked',
